@@ -190,6 +190,7 @@ def run_metamodel_case(name, via):
 REPO_GRAMMAR = "Model: imports*=Import items*=Item; Import: 'import' importURI=STRING; Item: 'i' name=ID ('r' ref=[Item])?;"
 REPO_CASES = [(p, sc, via) for p in ("FQNImportURI", "PlainNameImportURI", "PlainNameGlobalRepo") for sc in ("str-noimport", "file-noimport", "file-import")
               for via in ("api", "api-file", "gen") if not (p == "PlainNameGlobalRepo" and sc == "file-import")]
+REPO_CASES += [("FQNImportURI", sc, via) for sc in ("falsy-root", "quoted-filename") for via in ("api", "api-file")]
 REPO_CASES += [(p, "global-file-then-str", via) for p in ("FQNImportURI", "PlainNameImportURI") for via in ("api", "api-file")]
 
 
@@ -201,12 +202,26 @@ def run_repo_case(prov, scenario, via):
 
     d = os.path.join(core.rundir(), "c29r-%d" % os.getpid())
     os.makedirs(d, exist_ok=True)
-    mm = metamodel_from_str(REPO_GRAMMAR, global_repository=scenario.startswith("global-"))
+    classes = []
+    if scenario == "falsy-root":
+        class Model:  # a container-like user class: an empty model is falsy
+            def __init__(self, imports, items):
+                self.imports, self.items = imports, items
+
+            def __len__(self):
+                return len(self.items)
+        classes = [Model]
+    mm = metamodel_from_str(REPO_GRAMMAR, global_repository=scenario.startswith("global-"), classes=classes)
     mm.register_scope_providers({"*.*": getattr(providers, prov)()})
-    with open(os.path.join(d, "lib.m"), "w") as f:
+    lib = 'li"b.m' if scenario == "quoted-filename" else "lib.m"
+    with open(os.path.join(d, lib), "w") as f:
         f.write("i a i b r a")
-    main = os.path.join(d, "main.m")
+    main = os.path.join(d, 'ma"in.m' if scenario == "quoted-filename" else "main.m")
     text = 'import "lib.m" i x r a i y r x' if scenario in ("file-import", "global-file-then-str") else "i x i y r x"
+    if scenario == "quoted-filename":
+        text = "import 'li\"b.m' i x r a i y r x"
+    if scenario == "falsy-root":
+        text = 'import "lib.m"'
     with open(main, "w") as f:
         f.write(text)
     if scenario == "global-file-then-str":
